@@ -18,6 +18,7 @@ import (
 	"os"
 	"path/filepath"
 	"runtime"
+	"runtime/pprof"
 	"sort"
 	"strconv"
 	"strings"
@@ -36,6 +37,7 @@ type HarnessSpec struct {
 	MaxSteps     int      `json:"max_steps"`
 	MaxEnum      int      `json:"max_enum"`
 	TimeoutMs    int      `json:"timeout_ms"`
+	FPTimeoutMs  int      `json:"fp_timeout_ms"`
 	Workers      int      `json:"workers"`
 	RequireReach []string `json:"require_reach"`
 	Bounds       string   `json:"bounds"`
@@ -98,6 +100,17 @@ func main() {
 	os.Setenv("GOTOOLCHAIN", "local")
 	os.Setenv("GOFLAGS", "-mod=mod")
 	os.Setenv("GOPROXY", "off")
+	if mp := os.Getenv("VERIF_MEMPROFILE"); mp != "" {
+		go func() {
+			for k := 0; ; k++ {
+				time.Sleep(60 * time.Second)
+				if f, err := os.Create(fmt.Sprintf("%s.%d", mp, k%4)); err == nil {
+					pprof.WriteHeapProfile(f)
+					f.Close()
+				}
+			}
+		}()
+	}
 	tier := flag.String("tier", "", "quick | thorough (default $VERIF_TIER or quick)")
 	repo := flag.String("repo", "/repo", "repository root")
 	only := flag.String("only", "", "run only this harness")
@@ -299,6 +312,7 @@ func main() {
 		} else if *tier == "thorough" {
 			cfg.TimeoutMs = 600000
 		}
+		cfg.FPTimeoutMs = h.FPTimeoutMs
 		if *tier == "thorough" && cfg.Solver == "z3" {
 			cfg.CrossCheck = "z3-new"
 		}
@@ -587,7 +601,7 @@ func buildEvidence(id, tier string, seed int, spec CheckSpec, results []hres2, i
 		"samples":                       samples,
 		"obligations":                   obligations,
 		"discharged":                    discharged,
-		"explanation": spec.Explanation + " | states = symbolic paths explored (each a set of concrete executions described by its path condition); transitions = symbolic branch decisions taken; traces_validated_against_impl = solver counterexamples replayed natively against the real build with go test -overlay.",
+		"explanation":                   spec.Explanation + " | states = symbolic paths explored (each a set of concrete executions described by its path condition); transitions = symbolic branch decisions taken; traces_validated_against_impl = solver counterexamples replayed natively against the real build with go test -overlay.",
 		"exhaustive":                    exhaustive && len(inconclusive) == 0,
 		"harnesses":                     harnessEv,
 		"functions_encoded":             encoded,
